@@ -205,6 +205,9 @@ func (e *Engine) runBlocks(fr *frame, b *ssa.BasicBlock) Value {
 			if e.steps > e.cfg.MaxSteps {
 				panic(pathEnd{"budget", "steps"})
 			}
+			if e.steps&0xffff == 0 {
+				e.checkDeadline()
+			}
 			switch x := in.(type) {
 			case *ssa.Jump:
 				next = b.Succs[0]
@@ -1390,6 +1393,7 @@ func (e *Engine) allocCheck(n *Term) {
 	cond := e.tt.Bin(OpUle, n, e.c64(uint64(e.allocLimit)))
 	// prefer a moderate counterexample (replayable natively without exhausting memory)
 	moderate := e.tt.And(e.tt.Not(cond), e.tt.Bin(OpUle, n, e.c64(1<<22)))
+	e.checkDeadline()
 	if r, _ := e.sol.Check(e.pc, moderate, nil); r == Sat {
 		st := e.stat(id)
 		st.Checked++
